@@ -83,13 +83,15 @@ def isGateName (defs : List GateDef) (n : Str) : Bool := predefined n || defs.an
 
 /-- body of a gate definition as `_initialize_pass` stores it: known gates kept, `barrier`
 skipped, anything else refused -/
-def bodyPass (defs : List GateDef) : List GOp → Except Err (List GOp)
+def bodyPass (defs : List GateDef) (qargs : List Str) : List GOp → Except Err (List GOp)
   | [] => .ok []
   | g :: gs =>
     match g with
-    | .barrier _ => bodyPass defs gs
-    | .U .. | .CX .. => (bodyPass defs gs).map (g :: ·)
-    | .call n _ _ => if isGateName defs n then (bodyPass defs gs).map (g :: ·) else .error .syntax
+    | .barrier qs =>
+      -- repaired variant: the operands of a barrier must be formal qubits of the gate
+      if Gen.barrierChecked && !(qs.all qargs.contains) then .error .value else bodyPass defs qargs gs
+    | .U .. | .CX .. => (bodyPass defs qargs gs).map (g :: ·)
+    | .call n _ _ => if isGateName defs n then (bodyPass defs qargs gs).map (g :: ·) else .error .syntax
 
 /-- `_initialize_pass` -/
 def initPass : List Stmt → Init → Except Err Init
@@ -99,12 +101,14 @@ def initPass : List Stmt → Init → Except Err Init
     | .qreg n k => initPass ss { st with qregs := (n, st.nq, k) :: st.qregs, nq := st.nq + k }
     | .creg n k => initPass ss { st with cregs := (n, st.nc, k) :: st.cregs, nc := st.nc + k }
     | .gate d =>
-      match bodyPass st.defs d.body with
+      match bodyPass st.defs d.qargs d.body with
       | .error e => .error e
       | .ok [] => .error .notImpl
       | .ok b => initPass ss { st with defs := { d with body := b } :: st.defs }
     | .qop (.reset _) => .error .notImpl
-    | .barrier _ => initPass ss st
+    | .barrier qs =>
+      -- repaired variant: kept for the second pass, which checks its operands
+      if Gen.barrierChecked then initPass ss { st with rest := .barrier qs :: st.rest } else initPass ss st
     | .incl _ => initPass ss st
     | other => initPass ss { st with rest := other :: st.rest }
 
@@ -121,19 +125,31 @@ def resolveQ (st : Init) : Arg → Except Err (Nat ⊕ List Nat)
     | none => .error .key
     | some (s, n) => .ok (.inr ((List.range n).map (s + ·)))
 
-/-- the loop over the arguments: resolved arguments and `expand` -/
-def resolveQs (st : Init) : List Arg → Nat → Except Err (List (Nat ⊕ List Nat) × Nat)
+/-- `expand` after a whole register of `n` elements.  Original code: `expand = len(qubit)` is later
+tested by truthiness, so a register of size 0 counts as "no whole register" (`none`); repaired
+variant (`Gen.emptyRegOk`): `expand` starts as `None` and every whole register sets it. -/
+def exAfter (n : Nat) : Option Nat := if Gen.emptyRegOk || n != 0 then some n else none
+
+/-- the test on the sizes of whole registers; `barrier` statements of the repaired variant skip it -/
+def sizeClash (ex : Option Nat) (n : Nat) : Bool :=
+  match ex with
+  | some m => m != n
+  | none => false
+
+/-- the loop over the arguments: resolved arguments and `expand` (`none`: no whole register so far);
+`chk = false` for the operands of a barrier (`reg_type == "barrier"`) -/
+def resolveQs (st : Init) (chk : Bool) : List Arg → Option Nat → Except Err (List (Nat ⊕ List Nat) × Option Nat)
   | [], ex => .ok ([], ex)
   | a :: as, ex =>
     match resolveQ st a with
     | .error e => .error e
     | .ok (.inl q) =>
-      match resolveQs st as ex with
+      match resolveQs st chk as ex with
       | .error e => .error e
       | .ok (l, ex') => .ok (.inl q :: l, ex')
     | .ok (.inr l) =>
-      if ex ≠ 0 && ex ≠ l.length then .error .value
-      else match resolveQs st as l.length with
+      if chk && sizeClash ex l.length then .error .value
+      else match resolveQs st chk as (exAfter l.length) with
         | .error e => .error e
         | .ok (l', ex') => .ok (.inr l :: l', ex')
 
@@ -151,12 +167,12 @@ def isWhole : Nat ⊕ List Nat → Bool
 
 /-- `reg_set` -/
 def regSet (st : Init) (args : List Arg) : Except Err (List (List Nat)) :=
-  match resolveQs st args 0 with
+  match resolveQs st true args none with
   | .error e => .error e
-  | .ok (xs, ex) =>
-    if ex ≠ 0 then .ok ((List.range (zipLen xs ex)).map (tupleAt xs))
-    -- `expand == 0`: no whole register — or only EMPTY ones, which stay lists and make `int(i)` fail
-    else if xs.any isWhole then .error .type
+  | .ok (xs, some ex) => .ok ((List.range (zipLen xs ex)).map (tupleAt xs))
+  | .ok (xs, none) =>
+    -- no whole register — or (original code) only EMPTY ones, which stay lists and make `int(i)` fail
+    if xs.any isWhole then .error .type
     else .ok [xs.map fun x => match x with | .inl q => q | .inr _ => 0]
 
 /-! ## parameter expressions (`_eval_param`) -/
@@ -206,6 +222,12 @@ def sigOf (n : Str) : Option (Nat × Nat) :=
   match Gen.gateSignatures with
   | some t => (t.find? (fun e => e.1 == n)).map (·.2)
   | none => none
+
+/-- `_check_arity` against `_GATE_SIGNATURES` (no entry: no check) -/
+def sigOk (name : Str) (np nq : Nat) : Bool :=
+  match sigOf name with
+  | some (a, b) => decide (np = a ∧ nq = b)
+  | none => true
 
 def selTargets (regs : List Nat) : Sel → Except Err (List Nat)
   | .none => .ok []
@@ -347,6 +369,24 @@ def firstDup : List Nat → Bool
 def gateAdd (st : Init) (known : List (Str × List IGate)) (name : Str) (ps : List Expr) (args : List Arg)
     (cc : Option (List Nat)) (cv : Option Nat) : Except Err (List IOp × List (Str × List IGate)) :=
   match regSet st args with
+  | .error .type =>
+    -- original code, EMPTY whole registers only: `reg_set` is one pseudo-tuple of `len(args)` entries one of
+    -- which is a list; everything before the loop runs, then `int(list)` raises TypeError
+    if predefined name then
+      match evalParams ps with
+      | .error e => .error e
+      | .ok _ => .error .type
+    else
+      match st.defs.find? (fun d => d.name == name) with
+      | none => .error .key
+      | some d =>
+        match checkArity d.params.length d.qargs.length ps (List.range args.length) with
+        | .error e => .error e
+        | .ok _ =>
+          if (known.find? (fun e => e.1 == customName name ps)).isSome then .error .type
+          else match customGate st.defs 64 name ps ((List.range args.length).map Sum.inl) with
+            | .error e => .error e
+            | .ok _ => .error .type
   | .error e => .error e
   | .ok rs =>
     let gname := customName name ps
@@ -354,6 +394,8 @@ def gateAdd (st : Init) (known : List (Str × List IGate)) (name : Str) (ps : Li
       match evalParams ps with
       | .error e => .error e
       | .ok vals =>
+        -- repaired variant: the arity is checked once for the statement (it may have no instance)
+        if Gen.emptyRegOk && !sigOk name vals.length args.length then .error .value else
         let rec loop : List (List Nat) → Except Err (List IOp)
           | [] => .ok []
           | regs :: more =>
@@ -365,18 +407,20 @@ def gateAdd (st : Init) (known : List (Str × List IGate)) (name : Str) (ps : Li
                 | .ok l => .ok (gs.map IOp.gate ++ l)
         (loop rs).map (·, known)
     else
-      -- `gate = self.qasm_gates[command[0]]`, `len(reg_set[0])`, `_check_arity` — on every call
-      match st.defs.find? (fun d => d.name == name), rs with
+      -- `gate = self.qasm_gates[command[0]]`, `len(reg_set[0])` (repaired variant: the number of
+      -- operands), `_check_arity` — on every call
+      match st.defs.find? (fun d => d.name == name),
+          (if Gen.emptyRegOk then some args.length else rs.head?.map List.length) with
       | none, _ => .error .key
-      | some _, [] => .error .index
-      | some d, r0 :: _ =>
-        match checkArity d.params.length d.qargs.length ps r0 with
+      | some _, none => .error .index
+      | some d, some n =>
+        match checkArity d.params.length d.qargs.length ps (List.range n) with
         | .error e => .error e
         | .ok _ =>
           let expand : Except Err (List IGate × List (Str × List IGate)) :=
             match known.find? (fun e => e.1 == gname) with
             | some e => .ok (e.2, known)        -- `custom_gates[gate_name]` already computed
-            | none => (customGate st.defs 64 name ps ((List.range r0.length).map Sum.inl)).map (fun g => (g, (gname, g) :: known))
+            | none => (customGate st.defs 64 name ps ((List.range n).map Sum.inl)).map (fun g => (g, (gname, g) :: known))
           match expand with
           | .error e => .error e
           | .ok (inner, known') =>
@@ -417,6 +461,29 @@ def measure (st : Init) (q c : Arg) : Except Err (List IOp) :=
 /-- user gates of `_get_qiskit_gates` are in `custom_gates` from the start -/
 def initialKnown : List (Str × List IGate) := Gen.userGates.map (·, [])
 
+/-- binary digits of `v`, least significant first (`fuel` ≥ number of digits) -/
+def bitsLE : Nat → Nat → List Nat
+  | 0, _ => []
+  | f + 1, v => if v < 2 then [v] else (v % 2) :: bitsLE f (v / 2)
+
+/-- `int("{:0{}b}".format(k, n)[::-1], 2)`: the binary numeral of `k`, padded with zeros on the left
+to at least `n` digits, read backwards -/
+def pyRevBits (n k : Nat) : Nat :=
+  let d := bitsLE (k + 1) k
+  (d ++ List.replicate (n - d.length) 0).foldl (fun a b => 2 * a + b) 0
+
+/-- the `classical_control_value` passed on for `if(c==k)` on a register of `n` bits -/
+def condValue (n k : Nat) : Nat := if Gen.ifReversesValue then pyRevBits n k else k
+
+/-- repaired variant: `if(c==k)` with `k ≥ 2^n` never holds — the operation is checked, nothing is added -/
+def condSkipped (n k : Nat) : Bool := Gen.ifSkipsUnsat && decide (2 ^ n ≤ k)
+
+/-- a barrier statement in the second pass (repaired variant): `_regs_processor(…, "barrier")` -/
+def barrierCheck (st : Init) (qs : List Arg) : Except Err Unit :=
+  match resolveQs st false qs none with
+  | .error e => .error e
+  | .ok _ => .ok ()
+
 def qopAdd (st : Init) (known : List (Str × List IGate)) (cc : Option (List Nat)) (cv : Option Nat)
     (viaIf : Bool) : QOp → Except Err (List IOp × List (Str × List IGate))
   | .U a b c q => gateAdd st known cs!"U" [a, b, c] [q] cc cv
@@ -435,7 +502,10 @@ def finalPass (st : Init) : List Stmt → List (Str × List IGate) → Except Er
       | .ifc c k op =>
         match regFind st.cregs c with
         | none => .error .key
-        | some (s0, n) => qopAdd st known (some ((List.range n).map (s0 + ·))) (some k) true op
+        | some (s0, n) =>
+          if condSkipped n k then (qopAdd st known none none true op).map (fun r => ([], r.2))
+          else qopAdd st known (some ((List.range n).map (s0 + ·))) (some (condValue n k)) true op
+      | .barrier qs => if Gen.barrierChecked then (barrierCheck st qs).map (fun _ => ([], known)) else .error .syntax
       | _ => .error .syntax
     match r with
     | .error e => .error e
